@@ -105,6 +105,12 @@ def bundle(bid, rng, seed, tier):
     else:
         add('noseed:j', 'cli', sargs + ['-j', '2'])
         add('noseed:seq', 'inproc', sargs)
+        lnames = list(w['layers'])
+        if lnames:
+            # clock seed and children that are resumed, not started by -j
+            w2 = copy.deepcopy(w)
+            w2['layers'][sorted(lnames)[0]]['tearDown'] = 'notimpl'
+            add('noseed:resume', 'cli', sargs, w2)
     return w, runs
 
 
